@@ -658,6 +658,22 @@ pub fn building(r: &mut Rng, o: &GenOpts) -> Spec {
             line
         })
         .collect();
+    let mut lines = lines;
+    if n > 1 && g.r.chance(1, 6) {
+        // a demand declared as one annual value next to multi-step components (accepted: only its sum is used)
+        for s in ["ACS", "CAL", "REF"] {
+            if g.r.chance(2, 3) {
+                for l in lines.iter_mut() {
+                    if let Line::Need { srv, v } = l {
+                        if srv == s {
+                            let t: f64 = v.iter().map(|x| *x as f64).sum();
+                            *v = vec![((t * 100.0).round() / 100.0) as f32];
+                        }
+                    }
+                }
+            }
+        }
+    }
     let mut meta = vec![];
     if o.meta && g.r.chance(1, 2) {
         meta.push(("CTE_AREAREF".to_string(), format!("{:.2}", 10.0 + g.r.below(50000) as f64 / 100.0)));
